@@ -153,7 +153,7 @@ def h_hbar_scaling(env, d):
     env.equal("xpxp cov", a[3], b[3] * (hbar / 2))
 
 
-OBSERVABLES = ("purity", "mean_photon_number", "variance_photon_number", "parity", "xp_string", "ladder_string",
+OBSERVABLES = ("fidelity", "purity", "mean_photon_number", "variance_photon_number", "parity", "xp_string", "ladder_string",
                "threshold_inputs", "density_inputs", "quadratic_polynomial")
 
 
@@ -161,6 +161,29 @@ def _observe(env, st, obs, d, extra):
     np = env.np
     if obs == "purity":
         return [("purity", st.get_purity())]
+    if obs == "fidelity":
+        # the arguments handed to eigvals / det / exp (LAPACK and transcendental calls) must not depend on hbar;
+        # the result is a function of those values only
+        mod = xa.xnp if env.mode == "sym" else numpy
+        cap = []
+        saved = (mod.linalg.eigvals, mod.linalg.det, mod.exp)
+
+        def wrap(tag, f):
+            def g(a, *aa, **kk):
+                cap.append((tag, a))
+                return f(a, *aa, **kk)
+            return g
+        try:
+            mod.linalg.eigvals = wrap("eigvals arg", saved[0])
+            mod.linalg.det = wrap("det arg", saved[1])
+            mod.exp = wrap("exp arg", saved[2])
+            st.fidelity(extra["other"][id(st._config)])
+        finally:
+            if env.mode == "sym":
+                del mod.linalg.eigvals, mod.linalg.det, mod.exp      # instance attributes shadowing the class methods
+            else:
+                mod.linalg.eigvals, mod.linalg.det, mod.exp = saved
+        return [("%s #%d" % (tag, i), a) for i, (tag, a) in enumerate(cap)]
     if obs == "mean_photon_number":
         return [("nbar", st.mean_photon_number()), ("nbar(0,)", st.mean_photon_number((0,)))]
     if obs == "variance_photon_number":
@@ -217,6 +240,10 @@ def h_hbar_invariance(env, obs, d, displaced=True):
     extra = {}
     if obs in ("xp_string", "ladder_string"):
         extra["strings"] = [(0, d), (d, 0), (0, 0)] + ([(0, d, d, 0), (0, 1, d + 1, d)] if d > 1 else [(0, d, d, 0)])
+    if obs == "fidelity":
+        o = _state(env, d, hbar, name="t", displaced=displaced)
+        extra["other"] = {id(s._config): o, id(t._config): _same_moments(env, o, 2.0)}
+        extra["other"][id(t._config)]._config = t._config
     if obs == "quadratic_polynomial":
         extra["A"] = env.sym_real_mat("qA", 2 * d)
         extra["b"] = env.real_vec("qb", 2 * d)
@@ -256,7 +283,10 @@ def h_preparation(env, d, kind):
 
 
 def _physical_sampler(rng, d, displaced=True, **kw):
-    return cm.sample_physical_state(rng, d, "s", displaced=displaced)
+    v = cm.sample_physical_state(rng, d, "s", displaced=displaced)
+    if kw.get("obs") == "fidelity":
+        v.update(cm.sample_physical_state(rng, d, "t", displaced=displaced))
+    return v
 
 
 for _h in (h_getset, h_representations, h_reduced_rotated, h_hbar_scaling, h_hbar_invariance):
@@ -284,7 +314,7 @@ def instances(tier, seed):
             for modes in itertools.permutations(range(d), k):
                 out.append(("reduced_rotated", {"d": d, "modes": list(modes)}))
     for obs in OBSERVABLES:
-        for d in ((1,) if obs in ("purity", "parity") and tier == "quick" else (1, 2)):
+        for d in ((1,) if obs in ("purity", "parity", "fidelity") and (tier == "quick" or obs == "fidelity") else (1, 2)):
             out.append(("hbar_invariance", {"obs": obs, "d": d}))
     out.append(("hbar_invariance", {"obs": "purity", "d": 1, "displaced": False}))
     out.append(("hbar_invariance", {"obs": "threshold_inputs", "d": 2, "displaced": False}))
@@ -304,7 +334,7 @@ def run(rep, tier, seed, opts):
     if opts.get("only"):
         inst = [i for i in inst if opts["only"] in i[0] or opts["only"] in str(i[1])]
     rep.bounds = {"d": "1..2 (quick) / 1..3 (thorough); observables d<=2", "hbar": "all hbar>0", "state": "generic (m, C=C^+, G=G^T)",
-                  "outside": "fidelity (LAPACK eigvals), Wigner function, density-matrix entries themselves (C04 kernels), validators' eigenvalue logic, d>3"}
+                  "outside": "fidelity for d>1 (d=1 through a contract stub of eigvals), Wigner function, density-matrix entries themselves (C04 kernels), validators' eigenvalue logic, d>3"}
     o = {"timeout_s": 60 if tier == "quick" else 300, "instance_timeout_s": 300 if tier == "quick" else 1500, "seed": seed, "validation_points": 2}
     for r in core.run_instances(__name__, inst, o, jobs=opts.get("jobs")):
         rep.add_instance_result(__name__, r)
